@@ -30,6 +30,7 @@ Vars == {"x", "y"}
 \* complete world: one object per attribute vector; items / ref give collections and paths
 AttrOf == [o \in Objs |-> CASE o = "o1" -> [a |-> 0, b |-> 0] [] o = "o2" -> [a |-> 0, b |-> 1]
                             [] o = "o3" -> [a |-> 1, b |-> 0] [] OTHER -> [a |-> 1, b |-> 1]]
+WOf == [o \in Objs |-> CASE o = "o1" -> 0 [] o = "o2" -> 1 [] o = "o3" -> 99 [] OTHER -> 1]     \* 99 = None (Optional attribute)
 ItemsOf == [o \in Objs |-> CASE o = "o1" -> <<>> [] o = "o2" -> <<"o1">> [] o = "o3" -> <<"o1", "o4">> [] OTHER -> <<"o4", "o2">>]
 RefOf == [o \in Objs |-> CASE o = "o1" -> "o2" [] o = "o2" -> "o2" [] o = "o3" -> "o4" [] OTHER -> "o1"]
 \* the quantifier family also enumerates a domain in reverse order: an evaluation that abandons a pass over a domain part-way
@@ -49,7 +50,14 @@ AtomsAccess == { Cmp("eq", <<"attr2", "x", "ref", "a">>, L(0)), Cmp("ge", <<"att
 Binary == { Cmp("eq", A("x", "a"), A("y", "b")), <<"in", <<"var", "x">>, A("y", "items")>>, Cmp("ge", A("x", "b"), A("y", "a")) }
 AtomsQuant == { <<"forall", "y", c>> : c \in Binary } \cup { <<"exists", v, c>> : v \in {"x", "y"}, c \in Binary }
               \cup { Cmp("eq", A("x", "a"), L(0)), Cmp("lt", A("x", "b"), L(1)) }
-Atoms == CASE Family = "logic" -> AtomsLogic [] Family = "logic6" -> AtomsLogic6 [] Family = "quant" -> AtomsQuant [] OTHER -> AtomsAccess
+\* the translatable vocabulary of C07: attribute vs literal (incl. an Optional attribute holding None), a path across a
+\* relationship, membership in a literal collection, and a comparison between attributes of two variables
+AtomsSql == { Cmp("eq", A("x", "a"), L(0)), Cmp("lt", A("x", "b"), L(1)), Cmp("ge", A("x", "b"), L(1)), Cmp("ne", A("x", "a"), L(1)),
+              Cmp("eq", <<"attr2", "x", "ref", "a">>, L(0)), Cmp("ge", <<"attr2", "x", "ref", "b">>, L(1)),
+              Cmp("eq", A("x", "w"), L(1)), Cmp("ne", A("x", "w"), L(1)),
+              <<"in", A("x", "a"), <<"setlit", <<0>> >> >>, <<"in", A("x", "b"), <<"setlit", <<0, 1>> >> >>,
+              Cmp("eq", A("x", "a"), A("y", "b")) }
+Atoms == CASE Family = "logic" -> AtomsLogic [] Family = "sql" -> AtomsSql [] Family = "logic6" -> AtomsLogic6 [] Family = "quant" -> AtomsQuant [] OTHER -> AtomsAccess
 RECURSIVE ExprD(_)
 ExprD(d) == IF d = 0 THEN Atoms
             ELSE LET S == ExprD(d - 1) IN
@@ -59,7 +67,9 @@ SeqToSet(s) == { s[i] : i \in DOMAIN s }
 \* ---------------- layer R
 TermVal(t, asg) == CASE t[1] = "lit" -> t[2]
                      [] t[1] = "var" -> asg[t[2]]
-                     [] t[1] = "attr" -> (IF t[3] = "items" THEN ItemsOf[asg[t[2]]] ELSE IF t[3] = "ref" THEN RefOf[asg[t[2]]] ELSE AttrOf[asg[t[2]]][t[3]])
+                     [] t[1] = "attr" -> (IF t[3] = "items" THEN ItemsOf[asg[t[2]]] ELSE IF t[3] = "ref" THEN RefOf[asg[t[2]]]
+                                          ELSE IF t[3] = "w" THEN WOf[asg[t[2]]] ELSE AttrOf[asg[t[2]]][t[3]])
+                     [] t[1] = "setlit" -> t[2]
                      [] t[1] = "attr2" -> AttrOf[RefOf[asg[t[2]]]][t[4]]
 Apply(op, l, r) == CASE op = "eq" -> l = r [] op = "ne" -> l # r [] op = "lt" -> l < r [] op = "ge" -> l >= r
 With(asg, v, o) == [w \in (DOMAIN asg) \cup {v} |-> IF w = v THEN o ELSE asg[w]]
@@ -73,6 +83,7 @@ Sat(e, asg, dom) == CASE e[1] = "cmp" -> Apply(e[2], TermVal(e[3], asg), TermVal
                  [] e[1] = "forall" -> \A o \in SeqToSet(dom[e[2]]) : Sat(e[3], With(asg, e[2], o), dom)
 RECURSIVE VarsOf(_)
 VarsOf(e) == CASE e[1] = "lit" -> {}
+               [] e[1] = "setlit" -> {}
                [] e[1] \in {"var", "attr", "attr2"} -> {e[2]}
                [] e[1] = "cmp" -> VarsOf(e[3]) \cup VarsOf(e[4])
                [] e[1] = "in" -> VarsOf(e[2]) \cup VarsOf(e[3])
@@ -101,7 +112,7 @@ Ext(b, v, o) == [w \in Bound(b) \cup {v} |-> IF w = v THEN o ELSE b[w]]
 RECURSIVE Ev(_, _, _), Flat(_)
 Flat(ss) == IF ss = <<>> THEN <<>> ELSE ss[1] \o Flat(Tail(ss))
 TermOn(t, o) == CASE t[1] = "var" -> o
-                  [] t[1] = "attr" -> (IF t[3] = "items" THEN ItemsOf[o] ELSE IF t[3] = "ref" THEN RefOf[o] ELSE AttrOf[o][t[3]])
+                  [] t[1] = "attr" -> (IF t[3] = "items" THEN ItemsOf[o] ELSE IF t[3] = "ref" THEN RefOf[o] ELSE IF t[3] = "w" THEN WOf[o] ELSE AttrOf[o][t[3]])
                   [] t[1] = "attr2" -> AttrOf[RefOf[o]][t[4]]
 \* a term yields one result per value of its variable (enumerating the domain when the variable is unbound)
 EvT(t, b, dom) ==
@@ -153,8 +164,9 @@ Init == cond \in Pool
 Next == FALSE /\ UNCHANGED cond
 Spec == Init /\ [][Next]_cond
 \* quantified family: the bound variable ranges over a non-empty domain (an empty universal domain is a recorded finding)
-DomAsgs == { d \in [Vars -> Doms] : ~Ambiguous(cond, d) /\ (Family = "quant" => d["y"] # <<>>) }
-CaseSels == IF Family = "quant" THEN { <<"x">> } ELSE Sels
+DomAsgs == { d \in [Vars -> Doms] : ~Ambiguous(cond, d) /\ (Family = "quant" => d["y"] # <<>>)
+                                     /\ (Family = "sql" => \A v \in Vars : d[v] = <<"o1", "o2", "o3", "o4">>) }   \* SQL ranges over the whole table
+CaseSels == IF Family \in {"quant", "sql"} THEN { <<"x">> } ELSE Sels
 \* I => R : the pipeline returns exactly the satisfying rows
 EngineSound == \A d \in DomAsgs, s \in Sels : Rows(cond, d, s) = Answers(cond, d, s)
 \* meta-properties of the reference itself (guard the oracle)
